@@ -4,7 +4,7 @@
    ctx.RegexMatchedValues (map index -> *value.String) and the header maps (by value).
    No proofs here. *)
 From Coq Require Import List NArith ZArith Bool.
-From Falco Require Import Base.Res Base.Bytes.
+From Falco Require Import Base.Res Base.Bytes Model.HdrField.
 Import ListNotations.
 
 Definition str := list byte.
@@ -63,16 +63,23 @@ Inductive name :=
 | NLocal (k : N)            (* var.<k> of the executing frame *)
 | NGlobal (k : N)           (* a variable whose getter returns a pointer held by ctx *)
 | NHeader (o h : N)         (* <object o>.http.<header h>  (canonical name) *)
+| NField (o h k : N)        (* <object o>.http.<header h>:<sub-field k>: a VIEW of that header's value *)
 | NGroup (j : nat).         (* re.group.<j> *)
 
 Definition name_eqb (a b : name) : bool :=
   match a, b with
   | NLocal x, NLocal y | NGlobal x, NGlobal y => N.eqb x y
   | NHeader o h, NHeader o' h' => N.eqb o o' && N.eqb h h'
+  | NField o h k, NField o' h' k' => N.eqb o o' && N.eqb h h' && N.eqb k k'
   | NGroup i, NGroup j => Nat.eqb i j
   | _, _ => false
   end.
 Definition is_group (x : name) : bool := match x with NGroup _ => true | _ => false end.
+(* the header a name is (a view of) *)
+Definition hdr_of (x : name) : option (N * N) :=
+  match x with NHeader o h | NField o h _ => Some (o, h) | _ => None end.
+(* the text of sub-field key k: "k" followed by its decimal digit(s) (k < 10 in generated programs) *)
+Definition key_text (k : N) : str := [Byte.x6b; n2b (48 + k mod 10)%N].
 
 (* ---- operators (their VALUE-level meaning is a parameter, see [ops]) *)
 Inductive binop := BEq | BNe | BLt | BGt | BLe | BGe | BAnd | BOr.
@@ -106,7 +113,14 @@ Inductive stmt :=
 | SLog (e : expr)
 | SIf (c : expr) (th : list stmt) (elifs : list (expr * list stmt)) (el : option (list stmt))
 | SCall (f : N) (args : list expr)
-| SReturn (e : option expr).
+| SReturn (e : option expr)
+| SReturnState (st : N)                            (* return(lookup); ... in a procedure *)
+| SNop                                             (* break; / fallthrough; as statements: nothing *)
+| SSwitch (c : expr) (cases : list (ctest * list stmt * bool)) (dflt : option nat)
+with ctest :=
+| CDefault
+| CStr (s : str)                                   (* case "s": *)
+| CMatch (p : pat).                                (* case ~ "pattern": *)
 
 Record sub := { s_params : list (N * ty); s_ret : option ty; s_body : list stmt }.
 Definition program := list (N * sub).
@@ -181,12 +195,25 @@ Fixpoint upd {A} (i : nat) (x : A) (l : list A) : list A :=
 (* getRequestHeaderValue / getResponseHeaderValue: a FRESH String on every read *)
 Definition header_val (σ : state) (o h : N) : val :=
   match hget (o, h) (hdrs σ) with Some s => VStr s false false | None => VStr [] true false end.
+(* a sub-field read: GetField on the header's value (an empty or absent header has no sub-field);
+   the RFC-8941-like field functions are those of the header model of C17, Model/HdrField.v *)
+Definition hdr_text (σ : state) (o h : N) : str :=
+  match hget (o, h) (hdrs σ) with Some s => s | None => [] end.
+Definition field_of_text (t : str) (k : N) : val :=
+  match t with
+  | [] => VStr [] true false
+  | s => match get_field s (key_text k) with
+         | RStr v => VStr v false false
+         | RNotSet => VStr [] true false
+         end
+  end.
+Definition field_val (σ : state) (o h k : N) : val := field_of_text (hdr_text σ o h) k.
 
 Definition loc_of (σ : state) (x : name) : option nat :=
   match x with
   | NLocal k => lookup k (locals σ)
   | NGlobal k => lookup k (globals σ)
-  | NHeader _ _ => None
+  | NHeader _ _ | NField _ _ _ => None
   | NGroup j => nth_error (groups σ) j
   end.
 
@@ -195,6 +222,7 @@ Definition read (σ : state) (x : name) : option val :=
   match x with
   | NLocal _ | NGlobal _ => match loc_of σ x with Some l => nth_error (heap σ) l | None => None end
   | NHeader o h => Some (header_val σ o h)
+  | NField o h k => Some (field_val σ o h k)
   | NGroup _ => match loc_of σ x with Some l => nth_error (heap σ) l | None => Some (VStr [] true false) end
   end.
 
@@ -223,6 +251,7 @@ Definition arg_mode (m : mode) := {| m_cond := m_cond m; m_lvar := true |}.
 Inductive outcome :=
 | ONorm
 | OBare                            (* `return;` travelling to the subroutine boundary *)
-| OVal (l : nat) (direct : bool).  (* `return e;` - direct: not yet passed through an enclosing if *)
+| OVal (l : nat) (direct : bool)   (* `return e;` - direct: not yet passed through an enclosing if *)
+| OState (st : N).                 (* return(<state>): ends every enclosing subroutine *)
 Definition demote (o : outcome) : outcome :=
   match o with OVal l _ => OVal l false | _ => o end.
